@@ -99,7 +99,8 @@ def corpus():
         # nested re-binding
         "P|ll v 0 d L 0 9 L 0 9 T 0 l 0;d v 0 - D 1 L 0 9 T 0 d 0|set ll l 2 l 1 i 1 l 0;add d 0 s a l 1 i 2|pickle 0",
         "P|ll v 0 d L 0 9 L 0 9 T 0 l 0;r r 0 - A u|set ll l 1 l 1 i 1;set r i 4|clone d",
-        "#OBS deepcopy", "#OBS pickle 2", "#OBS clone d", "#G cycle deepcopy", "#G shared pickle 4",
+        "#OBS deepcopy", "#OBS pickle 2", "#OBS clone d", "#OBS2 pickle 2", "#OBS2 deepcopy",
+        "#DEL proto-both both clone n", "#DEL proto-before color deepcopy", "#G cycle deepcopy", "#G shared pickle 4",
         # F17: a CTrait without __dict__
         '#CT {"name": "raw:CTrait(0)", "how": "copy", "via": "as_ctrait"}',
     ]
@@ -115,6 +116,9 @@ def probe_T():
     out.append("T|new 7;default 0;probe")
     for k in range(-1, 13):
         out.append("T|new 0;default %d;probe" % k)
+    # delegate() with prefix_type around the guard (and far outside): the handler read from the table must be a function
+    for p in (-100, -1, 0, 1, 3, 4, 5, 6, 100):
+        out.append("T|new 3;delegate %d;dprobe" % p)
     for b in (0, 1):
         for hv in (0, 1):
             out.append("T|new 4;property 1 2 1 %d;post %d;probe" % (hv, b))
@@ -188,6 +192,10 @@ def generate(rng, tier):
                 yield "#CT " + json.dumps({"name": nm, "how": how, "via": via}, sort_keys=True)
     for op in COPY_OPS:
         yield "#OBS " + op
+        yield "#OBS2 " + op
+        for shape in DEL_SHAPES:
+            for override in ("none", "color", "both"):
+                yield "#DEL %s %s %s" % (shape, override, op)
         for shape in ("chain", "shared", "cycle", "dict", "self"):
             yield "#G %s %s" % (shape, op)
 
@@ -254,6 +262,11 @@ def run_t(case):
     ops = [o.strip() for o in case.split("|", 1)[1].split(";") if o.strip()]
     ans = _server().request({"k": "T", "ops": ops})
     tags = ["T:" + o.split()[0] for o in ops]
+    if "crash" in ans and "dprobe" in ops:
+        return "crash", [{"signature": "crash:raw-ctrait:delegate-prefix-type",
+                          "what": "using the delegate CTrait built by [%s] killed the interpreter (%s)" % (
+                              "; ".join(ops), SUB.crash_summary(ans)),
+                          "stderr_tail": ans.get("stderr", "")[-1200:]}], tags + ["T:crash"]
     if "crash" in ans and "probe" in ops:
         # using the trait (obj.z, obj.z = 1, del obj.z) killed the interpreter: name the unfilled field
         kind = ops[0].split()[-1]
@@ -282,6 +295,13 @@ def run_t(case):
         return "harness-exception " + ans["error"], [], tags
     out = ans["out"]
     hits = []
+    if "dprobe" in ops and " dprobe=" in out and not out.endswith(" dprobe=ok,ok"):
+        # CTrait.delegate documents prefix_type 0..3 and treats anything else as 0 (same-name delegation): with
+        # the name rules used here (0, 1, 3 or out of range) reading and writing through the delegate must work
+        pt = [o.split()[1] for o in ops if o.startswith("delegate ")][-1]
+        hits.append({"signature": "delegate-prefix-type:%s" % ("in-range" if pt in ("0", "1", "3") else "out-of-range"),
+                     "what": "delegate('target', 'x', %s, True): owner.x / owner.x = 7 gave %s" % (
+                         pt, out.split(" dprobe=")[1])})
     if out.startswith("idx") and " same" not in out:
         hits.append({"signature": "ctrait-roundtrip-handlers-differ:T", "what": "indices change across a round trip: " + out})
     return out, hits, tags
@@ -392,6 +412,190 @@ def run_obs(case):
         ok = True
     expect("nested-live", ok, "nested list of the copy accepted an invalid item")
     return " ".join(res), hits, ["OBS", "OBS:" + sig]
+
+
+# --------------------------------------------------------------------------- #OBS2 (post_init observers, no legacy listeners)
+
+def account_class():
+    if "Account" in _OBS:
+        return _OBS["Account"]
+    from traits.api import Any, HasTraits, Int, List, observe
+    mod = sys.modules[__name__]
+
+    class Account(HasTraits):
+        # NO on_trait_change methods, depends_on properties or delegates: __listener_traits__ is empty
+        balance = Int()
+        entries = List(Int)
+        log = Any(transient=True)
+
+        def _log(self, what):
+            if self.log is None:
+                self.log = []
+            self.log.append(what)
+
+        @observe("balance", post_init=True)
+        def _record_balance(self, event):
+            self._log(("post_init:balance", event.old, event.new))
+
+        @observe("entries.items", post_init=True)
+        def _record_entries(self, event):
+            self._log(("post_init:entries.items",))
+
+        @observe("balance")
+        def _audit(self, event):
+            self._log(("observe:balance", event.new))
+    Account.__module__ = __name__
+    Account.__qualname__ = "Account"
+    setattr(mod, "Account", Account)
+    assert len(Account.__listener_traits__) == 0
+    _OBS["Account"] = Account
+    return Account
+
+
+def run_obs2(case):
+    op = case[6:].strip()
+    sig = PL.COPY_SIG[op if not op.startswith("pickle") else "pickle"]
+    Account = account_class()
+    a = Account(balance=10, entries=[1, 2])
+    hits = []
+    try:
+        c = PL.do_copy(a, op)
+    except Exception as e:
+        return "copyerr " + exc_name(e), [{"signature": "copy-raises:%s:%s" % (sig, exc_name(e)),
+                                           "what": "%s of an object with post_init observers raised" % op}], ["OBS2"]
+    res = []
+
+    def expect(label, cond, what):
+        res.append("%s=%s" % (label, "y" if cond else "n"))
+        if not cond:
+            hits.append({"signature": "observer-dead:%s:%s" % (label, sig), "what": what + " after " + op,
+                         "no_shrink": True})
+    expect("values", (c.balance, list(c.entries)) == (10, [1, 2]), "values differ")
+    expect("post-init-silent-during-restore", not [x for x in (c.log or []) if x[0].startswith("post_init")],
+           "post_init observers saw the state being restored: %r" % (c.log,))
+    a.log = []
+    c.log = []
+    c.balance = 25
+    expect("observe-balance", ("observe:balance", 25) in c.log, "@observe('balance') did not fire on the copy")
+    expect("post-init-balance", ("post_init:balance", 10, 25) in c.log,
+           "@observe('balance', post_init=True) is not hooked up on the copy")
+    c.log = []
+    c.entries.append(3)
+    expect("post-init-items", c.log == [("post_init:entries.items",)],
+           "@observe('entries.items', post_init=True) did not fire once on the copy: %r" % (c.log,))
+    c.log = []
+    c.entries = [4]
+    expect("post-init-items-reassign", c.log == [("post_init:entries.items",)],
+           "@observe('entries.items', post_init=True) did not fire on re-assignment on the copy: %r" % (c.log,))
+    expect("original-silent", not a.log, "observers of the ORIGINAL fired: %r" % (a.log,))
+    return " ".join(res), hits, ["OBS2", "OBS2:" + sig]
+
+
+# --------------------------------------------------------------------------- #DEL (delegates / prototypes)
+
+_DEL = {}
+DEL_SHAPES = ("proto-before", "proto-after", "proto-both", "delegate-before", "delegate-after", "mixed")
+
+
+def delegate_classes():
+    if _DEL:
+        return _DEL
+    from traits.api import DelegatesTo, HasTraits, Instance, Int, List, PrototypedFrom, Str
+    mod = sys.modules[__name__]
+
+    class Style(HasTraits):
+        color = Str("black")
+        width = Int(1)
+        tags = List(Str)
+    Style.__module__ = __name__
+    Style.__qualname__ = "Style"
+    setattr(mod, "Style", Style)
+
+    def mk(name, body):
+        ns = dict(body)
+        ns["__module__"] = __name__
+        ns["__qualname__"] = name
+        cls = type(HasTraits)(name, (HasTraits,), ns)
+        setattr(mod, name, cls)
+        return cls
+    # declaration order is the copy order: deferring delegates is what makes "before" shapes work
+    _DEL["Style"] = Style
+    _DEL["proto-before"] = mk("ShapePB", [("color", PrototypedFrom("style")), ("width", PrototypedFrom("style")),
+                                          ("style", Instance(Style))])
+    _DEL["proto-after"] = mk("ShapePA", [("style", Instance(Style)), ("color", PrototypedFrom("style")),
+                                         ("width", PrototypedFrom("style"))])
+    _DEL["proto-both"] = mk("ShapePX", [("color", PrototypedFrom("style")), ("style", Instance(Style)),
+                                        ("width", PrototypedFrom("style"))])
+    _DEL["delegate-before"] = mk("ShapeDB", [("color", DelegatesTo("style")), ("width", DelegatesTo("style")),
+                                             ("style", Instance(Style))])
+    _DEL["delegate-after"] = mk("ShapeDA", [("style", Instance(Style)), ("color", DelegatesTo("style")),
+                                            ("width", DelegatesTo("style"))])
+    _DEL["mixed"] = mk("ShapeMX", [("color", PrototypedFrom("style")), ("tags", PrototypedFrom("style")),
+                                   ("style", Instance(Style)), ("width", DelegatesTo("style"))])
+    return _DEL
+
+
+def run_del(case):
+    _, shape, override, op = case.split(" ", 3)
+    sig = PL.COPY_SIG[op if not op.startswith("pickle") else "pickle"]
+    classes = delegate_classes()
+    Style, cls = classes["Style"], classes[shape]
+    o = cls(style=Style(color="red", width=2, tags=["t"]))
+    if override in ("color", "both"):
+        o.color = "blue"
+    if override in ("width", "both"):
+        o.width = 7
+    if shape == "mixed" and override != "none":
+        o.tags = ["local"]
+    want = (o.color, o.width, o.style.color, o.style.width)
+    want_tags = list(o.tags) if shape == "mixed" else None
+    hits = []
+    try:
+        c = PL.do_copy(o, op)
+    except Exception as e:
+        return "copyerr " + exc_name(e), [{"signature": "copy-raises:%s:%s" % (sig, exc_name(e)),
+                                           "what": "%s of an object with delegates raised %s" % (op, e)}], ["DEL"]
+    res = []
+
+    def expect(label, cond, what):
+        res.append("%s=%s" % (label, "y" if cond else "n"))
+        if not cond:
+            hits.append({"signature": "delegate:%s:%s:%s" % (label, sig, shape), "what": what + " after " + op,
+                         "no_shrink": True})
+    expect("class", type(c) is cls, "class differs")
+    got = None
+    try:
+        got = (c.color, c.width, c.style.color if c.style is not None else None,
+               c.style.width if c.style is not None else None)
+    except Exception as e:
+        got = "raises " + exc_name(e)
+    expect("values", got == want, "delegated / prototyped values differ: original %r, copy %r" % (want, got))
+    if want_tags is not None:
+        expect("list-value", list(c.tags) == want_tags, "prototyped list differs: %r vs %r" % (want_tags, list(c.tags)))
+    deep = sig in ("pickle", "deepcopy", "clone-deep")
+    if deep:
+        expect("delegate-object-copied", c.style is not o.style, "the delegate object is shared")
+    # clone_traits / deepcopy copy a prototyped trait by reading it through the prototype and ASSIGNING it, which
+    # makes it a local override on the clone (copy_traits, deferred loop): only an unpickled object, or a
+    # DelegatesTo trait, still follows its delegate when the original had no override
+    materialised = (sig not in ("pickle", "copy")) and not shape.startswith("delegate") and override == "none"
+    if got == want and c.style is not None and c.style is not o.style and not materialised:
+        # live: the copy follows ITS delegate, not the original's
+        before = o.color
+        c.style.color = "pink"
+        follows = c.color == ("pink" if (shape.startswith("delegate") or override not in ("color", "both")) else want[0])
+        expect("follows-own-delegate", follows and o.color == before,
+               "after changing the copy's delegate: copy.color=%r original.color=%r" % (c.color, o.color))
+        if shape.startswith("proto") or shape == "mixed":
+            c.color = "green"
+            expect("override-local", c.style.color == "pink" and o.color == before,
+                   "a local override on the copy leaked: copy.style.color=%r original.color=%r" % (c.style.color, o.color))
+            try:
+                del c.color
+                expect("revert-to-prototype", c.color == "pink", "deleting the override does not revert: %r" % (c.color,))
+            except Exception as e:
+                expect("revert-to-prototype", False, "deleting the override raised " + exc_name(e))
+    return " ".join(res), hits, ["DEL", "DEL:" + shape, "DEL:" + sig]
 
 
 # --------------------------------------------------------------------------- #G
@@ -531,6 +735,10 @@ def run_impl(case):
         return run_ct(case)
     if case.startswith("#OBS "):
         return run_obs(case)
+    if case.startswith("#OBS2 "):
+        return run_obs2(case)
+    if case.startswith("#DEL "):
+        return run_del(case)
     if case.startswith("#G "):
         return run_g(case)
     raise ValueError(case)
